@@ -606,7 +606,68 @@ def compiled_table(repo):
     return out.items
 
 
-GROUPS = [('views', estimated_parameters), ('views', correlation_results), ('native', second_order_table), ('views', var_covar_views),
+# ------------------------------------------------------------------------------------------------
+# get_general_statistics
+# ------------------------------------------------------------------------------------------------
+def general_statistics(repo):
+    """every `d[label] = GeneralStatistic(value=<expr>, ...)` / dict-literal entry: <expr> is the raw field the label names
+    (table GENERAL_STATISTICS of contracts/c08_tables.py).  Covers every row in every configuration, also the
+    Monte-Carlo rows that the quick tier does not prove deductively."""
+    from contracts.c08_tables import GENERAL_STATISTICS
+    out = Out('get_general_statistics')
+    fn = _func(repo, 'bioResults', 'get_general_statistics')
+    if fn is None:
+        out.add('table', UNK, 'function not found')
+        return out.items
+    loc = Locals(fn)
+    entries = []
+    for n in ast.walk(fn):
+        if isinstance(n, ast.Dict):
+            entries += [(k, v, k.lineno) for k, v in zip(n.keys, n.values) if k is not None and label_text(k) is not None
+                        and isinstance(loc.resolve(v), ast.Call)]
+        elif (isinstance(n, ast.Assign) and len(n.targets) == 1 and isinstance(n.targets[0], ast.Subscript)
+              and isinstance(n.targets[0].value, ast.Name) and label_text(loc.resolve(n.targets[0].slice)) is not None):
+            entries.append((loc.resolve(n.targets[0].slice), n.value, n.lineno))
+    entries.sort(key=lambda t: t[2])
+    seen = set()
+    for k, v, line in entries:
+        text = label_text(k)[0]
+        call = loc.resolve(v)
+        val = None
+        if isinstance(call, ast.Call) and _name(call.func) == 'GeneralStatistic':
+            val = next((kw.value for kw in call.keywords if kw.arg == 'value'), call.args[0] if call.args else None)
+        if val is None:
+            out.add(text, UNK, f'line {line}: {text!r} <- {_show(v)}: not a GeneralStatistic(value=...)', line)
+            continue
+        seen.add(text)
+        rv = loc.resolve(val)
+        if text == 'Number of free parameters':
+            good = isinstance(rv, ast.Call) and isinstance(rv.func, ast.Attribute) and rv.func.attr in ('number_of_free_parameters', 'numberOfFreeParameters')
+            out.add(text, OK if good else UNK, f'line {line}: {text!r} <- {_show(rv)}', line)
+            continue
+        if text == 'Types of draws':
+            fields = {a.attr for a in ast.walk(rv) if _is_self_data(a)}
+            out.add(text, OK if fields == {'typesOfDraws'} else (BAD if fields else UNK), f'line {line}: {text!r} built from self.data.{sorted(fields)}', line)
+            continue
+        if text not in GENERAL_STATISTICS:
+            out.add(text, UNK, f'line {line}: label {text!r} has no specified quantity (extend GENERAL_STATISTICS)', line)
+            continue
+        want = GENERAL_STATISTICS[text][0]
+        # self.data.<field>, also through a once-assigned alias of self.data
+        found = None
+        if isinstance(rv, ast.Attribute):
+            base = loc.resolve(rv.value)
+            if isinstance(base, ast.Attribute) and base.attr == 'data' and _name(base.value) == 'self':
+                found = ('data', rv.attr)
+        st, detail = _verdict(found, ('data', want), rv, text, loc, f'self.data.{want}')
+        out.add(text, st, f'line {line}: {detail}', line)
+    for label in GENERAL_STATISTICS:
+        if label not in seen:
+            out.add(label, UNK, f'no row {label!r} is written by get_general_statistics')
+    return out.items
+
+
+GROUPS = [('views', general_statistics), ('views', estimated_parameters), ('views', correlation_results), ('native', second_order_table), ('views', var_covar_views),
           ('compiled', compiled_table)]
 
 
